@@ -66,11 +66,18 @@ fn read_call(r: &mut AsyncReader<ScriptSrc>, k: Kind, ch: &Shared, drops_left: &
     macro_rules! drive { ($t:ty, $wrap:expr) => {{
         let mut fut = Box::pin(r.read::<$t>());
         loop {
+            let pendings_before = log.borrow().pendings;
             match fut.as_mut().poll(&mut cx) {
                 Poll::Ready(Ok(Some(v))) => { let f: fn($t) -> Val = $wrap; return Ok(ReadOutcome::Val(f(v))) }
                 Poll::Ready(Ok(None)) => return Ok(ReadOutcome::End),
                 Poll::Ready(Err(e)) => return Ok(ReadOutcome::Err(e)),
                 Poll::Pending => {
+                    // a Pending the transport did not cause (the future yielded of its own accord): a suspension point like
+                    // any other, so the caller may drop the future right there - the first few times it always does
+                    if log.borrow().pendings == pendings_before && crate::sched::spontaneous_drop() {
+                        { let mut s = log.borrow_mut(); if s.log.len() < 64 { s.log.push("DROP(at a Pending of the reader's own)".into()) } }
+                        return Err(())
+                    }
                     // caller decision: keep polling, or drop the future and call read again
                     if *drops_left > 0 && ch.borrow_mut().choose(2) == 1 {
                         *drops_left -= 1;
@@ -95,6 +102,7 @@ pub struct RunInfo { pub drops_mid_frame: usize, pub pendings: usize, pub errors
 fn run_schedule(vals: &[Val], stream: &Rc<Vec<u8>>, complete: usize, on_boundary: bool, ch: Shared, b: Bounds) -> Result<RunInfo, Fail> {
     let st = Rc::new(RefCell::new(SrcState::default()));
     let src = ScriptSrc { data: stream.clone(), st: st.clone(), ch: ch.clone(), b };
+    crate::sched::reset_spontaneous();
     let mut r = match crate::sched::take_prebuf() { Some(b) => AsyncReader::with_buffer(src, b), None => AsyncReader::new(src) };
     if let Some(m) = crate::sched::READER_MAX.with(|c| c.take()) { r.set_max_len(m) }
     let mut drops_left = b.drops;
